@@ -161,6 +161,15 @@ func apply(s state, o opSpec) (state, string) {
 		n := s.clone()
 		n.cv[o.Name] = o.Val
 		return n, "ok"
+	case "PathGet":
+		// GetEnvFromPath([name]), then a look-up THROUGH the module of a name that
+		// only the root binds (q = 7, never written): a module hangs below the scope
+		// it was created in
+		_, out := apply(s, opSpec{Kind: "Path", Name: o.Name})
+		if out == "err" {
+			return s, "err"
+		}
+		return s, out + ":7"
 	case "Path":
 		// GetEnvFromPath([name]): the nearest scope in which name is bound to a
 		// MODULE answers; a binding to something else is passed over
@@ -214,6 +223,7 @@ type opRec struct {
 	Ret    int64    `json:"ret"`
 	Out    string   `json:"out"`
 	mod    *env.Env // the module an operation returned; numbered after the run
+	suffix string   // what was read through that module
 }
 
 func histString(h []opRec) string {
@@ -399,6 +409,19 @@ func scenarios(thorough bool) []scenario {
 			addM([][]opSpec{{moduleOps[i/k], moduleOps[i%k]}, {moduleOps[j/k], moduleOps[j%k]}})
 		}
 	}
+	// a look-up THROUGH the module a path lookup returned (four lock acquisitions:
+	// in two-thread scenarios, and next to two other operations)
+	pg := opSpec{Kind: "PathGet", Name: "a"}
+	addM([][]opSpec{{pg}, {pg}})
+	for i := 0; i < k; i++ {
+		addM([][]opSpec{{pg}, {moduleOps[i]}})
+		addM([][]opSpec{{moduleOps[i], pg}, {moduleOps[i]}})
+		for j := i; j < k; j++ {
+			addM([][]opSpec{{pg}, {moduleOps[i]}, {moduleOps[j]}})
+			addM([][]opSpec{{pg}, {moduleOps[i], moduleOps[j]}})
+			addM([][]opSpec{{pg}, {moduleOps[j], moduleOps[i]}})
+		}
+	}
 	if thorough {
 		for i := 0; i < n*n; i++ {
 			for j := i; j < n*n; j++ {
@@ -471,7 +494,7 @@ func cell(v int64) reflect.Value {
 }
 
 func initState(cfg int) state {
-	s := state{cv: map[string]int64{}, pv: map[string]int64{"a": 1}, ct: map[string]string{}, pt: map[string]string{"a": "int64"}}
+	s := state{cv: map[string]int64{}, pv: map[string]int64{"a": 1, "q": 7}, ct: map[string]string{}, pt: map[string]string{"a": "int64"}}
 	if cfg == 0 {
 		s.cv["a"] = 2
 	}
@@ -515,6 +538,7 @@ func runOnce(sc scenario, ch sched.Chooser, record bool) execResult {
 	parent := env.NewEnv()
 	parent.DefineValue("a", cell(1))
 	parent.DefineType("a", int64(0))
+	parent.DefineValue("q", cell(7))
 	e := parent.NewEnv()
 	if sc.Cfg == 0 {
 		e.DefineValue("a", cell(2))
@@ -529,6 +553,7 @@ func runOnce(sc scenario, ch sched.Chooser, record bool) execResult {
 	s.LockPoints = true
 	s.Record = record
 	s.Shared = map[*vhook.RWMutex]bool{e.VerifMutex(): true, parent.VerifMutex(): true}
+	s.FieldsAll = true // also the fields of modules and copies made during the run
 	var clock int64
 	var res execResult
 	hist := make([][]opRec, len(sc.Threads))
@@ -582,6 +607,18 @@ func runOnce(sc scenario, ch sched.Chooser, record bool) execResult {
 					} else {
 						mods[m] = o.Val
 						rec.Out = "ok"
+					}
+				case "PathGet":
+					m, err := e.GetEnvFromPath([]string{o.Name})
+					if err != nil {
+						rec.Out = "err"
+					} else {
+						rec.mod = m
+						if v, err := m.Get("q"); err != nil {
+							rec.suffix = ":undefined"
+						} else {
+							rec.suffix = ":" + readVal(v)
+						}
 					}
 				case "Path":
 					m, err := e.GetEnvFromPath([]string{o.Name})
@@ -657,13 +694,16 @@ func runOnce(sc scenario, ch sched.Chooser, record bool) execResult {
 	for ti := range hist {
 		for oi := range hist[ti] {
 			if m := hist[ti][oi].mod; m != nil {
-				hist[ti][oi].Out = fmt.Sprint(mods[m]) // 0: a module nobody created
+				hist[ti][oi].Out = fmt.Sprint(mods[m]) + hist[ti][oi].suffix // 0: a module nobody created
 			}
 			if c, ok := copies[[2]int{ti, oi}]; ok && c != nil {
 				v, t := dumpEnv(c, mods)
 				hist[ti][oi].Out = "v{" + v + "}t{" + t + "}"
 				// a copy is a consistent snapshot: what its own tables hold must be
 				// what its API answers (the copy is private: checked after the run)
+				if w, r := c.VerifMutex().Held(); w != 0 || r != 0 {
+					res.copyBad = append(res.copyBad, fmt.Sprintf("T%d op %d: the copy's lock was copied while held (writers=%d readers=%d): the copy is born locked", ti, oi, w, r))
+				}
 				if d := copyInconsistency(c); d != "" {
 					res.copyBad = append(res.copyBad, fmt.Sprintf("T%d op %d: %s", ti, oi, d))
 				}
